@@ -259,7 +259,9 @@ def to_prog(ast, max_iter):
         elif s[0] == "object":
             n = ev(s[1])
             env["ego.foo"] = n
-            outnames.append(["prop", "foo", len(obj_roots)])
+            # (the index of the object is given only from the second object on: single-object programs, which
+            #  other checks consume too, keep the two-element form)
+            outnames.append(["prop", "foo"] if not obj_roots else ["prop", "foo", len(obj_roots)])
             obj_roots.append(n)
             outs.append(n)
         elif s[0] == "require":
